@@ -4,8 +4,11 @@
 
   Code-shaped model of
     src/chunk.c    psf_save_write_chunk (as repaired by adbbe09, and the rule before the repair),
-                   psf_store_read_chunk, hash_of_str, psf_find_read_chunk_str, psf_get_chunk_iterator,
-                   psf_next_chunk_iterator
+                   marker_of_str (ids padded with spaces; `mark32Old` = the snprintf into an uninitialised union it replaced),
+                   psf_chunk_id_is_printable, psf_chunk_id_is_one_of and the reserved lists of the four *_set_chunk,
+                   psf_store_read_chunk, hash_of_str, psf_find_read_chunk_str, psf_get_chunk_iterator
+                   (as repaired by ee77a20: a NULL id clears the hash), psf_next_chunk_iterator
+    src/sndfile.c  sf_set_chunk (refused once audio has been written, 7d7b1a3)
     src/common.c   psf_bump_header_allocation and the per-format-character checks of psf_binheader_writef
     src/wavlike.c  wavlike_write_custom_chunks; aiff.c / caf.c: the "Write custom headers" loops
     src/wav.c, rf64.c, aiff.c, caf.c   the chunk walk of the header parsers as far as it concerns chunks the
@@ -87,10 +90,21 @@ def Mark.bytes (m : Mark) : List Byte := [m.a, m.b, m.c, m.d]
 /-- the `uint32_t` the little-endian host reads from the union -/
 def Mark.u32 (m : Mark) : Nat := m.a + 256 * m.b + 65536 * m.c + 16777216 * m.d
 
-/-- `snprintf (u.str, 5, "%.4s", id)` into an *uninitialised* union: the bytes after the terminating NUL keep
+/-- `marker_of_str`: `snprintf (u.str, 5, "%-4.4s", id)`: the first four characters of the C string, an id of fewer
+    than four characters padded with spaces (0x20).  Used for storing a chunk and for looking one up alike. -/
+def markerOf (id : Id) : Mark :=
+  match cstr id with
+  | a :: b :: c :: d :: _ => ⟨a, b, c, d⟩
+  | [a, b, c] => ⟨a, b, c, 32⟩
+  | [a, b] => ⟨a, b, 32, 32⟩
+  | [a] => ⟨a, 32, 32, 32⟩
+  | [] => ⟨32, 32, 32, 32⟩
+
+/-- THE RULE BEFORE THE REPAIR of C13-short-id.
+    `snprintf (u.str, 5, "%.4s", id)` into an *uninitialised* union: the bytes after the terminating NUL keep
     whatever the stack held (`g0 g1 g2`: indeterminate; they are parameters of the model).  Ids of four or more
     characters do not depend on them. -/
-def mark32 (g : Byte × Byte × Byte) (id : Id) : Mark :=
+def mark32Old (g : Byte × Byte × Byte) (id : Id) : Mark :=
   match cstr id with
   | a :: b :: c :: d :: _ => ⟨a, b, c, d⟩
   | [a, b, c] => ⟨a, b, c, 0⟩
@@ -98,9 +112,13 @@ def mark32 (g : Byte × Byte × Byte) (id : Id) : Mark :=
   | [a] => ⟨a, 0, g.2.1, g.2.2⟩
   | [] => ⟨0, g.1, g.2.1, g.2.2⟩
 
-/-- `strlen (id) > 4 ? hash_of_str (id) : u.marker` -/
-def idHash (g : Byte × Byte × Byte) (id : Id) : Nat :=
-  if (cstr id).length > 4 then hashOfStr (cstr id) else (mark32 g id).u32
+/-- `strlen (id) > 4 ? hash_of_str (id) : marker_of_str (id)` -/
+def idHash (id : Id) : Nat :=
+  if (cstr id).length > 4 then hashOfStr (cstr id) else (markerOf id).u32
+
+/-- the lookup hash before the repair of C13-short-id (same uninitialised union) -/
+def idHashOld (g : Byte × Byte × Byte) (id : Id) : Nat :=
+  if (cstr id).length > 4 then hashOfStr (cstr id) else (mark32Old g id).u32
 
 def isPrint (b : Byte) : Bool := 32 ≤ b && b ≤ 126      -- psf_isprint / isprint in the C locale
 
@@ -136,21 +154,56 @@ def markAccepted (c : Container) (m : Mark) : Bool :=
   | .caf => true
   | _ => isPrint m.a && isPrint m.b && isPrint m.c && isPrint m.d
 
-/-- WAV only: `(marker & 0xffffff) == 'TAG'` and the chunk starts 128 bytes before the end of the file is taken
-    for an ID3v1 trailer. -/
-def tagLike (c : Container) (m : Mark) : Bool := c == .wav && m.a == 84 && m.b == 65 && m.c == 71
+/-- THE RULE BEFORE THE REPAIR (part of C13-reserved-id).  WAV only: `(marker & 0xffffff) == 'TAG'` and the chunk
+    starts 128 bytes before the end of the file was taken for an ID3v1 trailer, wherever it stood. -/
+def tagLikeOld (c : Container) (m : Mark) : Bool := c == .wav && m.a == 84 && m.b == 65 && m.c == 71
+
+/-- The repaired WAV parser makes the ID3v1 test only once it has seen the `data` chunk (`parsestage & HAVE_data`);
+    the chunks of this model stand in front of it, so no marker is special here any more. -/
+def tagLike (_c : Container) (_m : Mark) : Bool := false
 
 /-- markers for which the model claims the round trip: not zero, accepted by the parser's default branch,
     neither interpreted by the container nor one of its trailing chunks -/
 def legalMark (c : Container) (m : Mark) : Bool :=
   m.u32 != 0 && markAccepted c m && !(interpreted c).contains m && !(trailer c).contains m && !tagLike c m
 
-/-- the identifiers for which the model claims the round trip: exactly four characters, none of them NUL,
-    and a legal marker -/
-def legalId (c : Container) (id : Id) : Bool :=
+/-- THE RULE BEFORE THE REPAIRS: the identifiers for which the round trip held: exactly four characters, none of
+    them NUL, a legal marker, and not `TAG?` -/
+def legalIdOld (c : Container) (id : Id) : Bool :=
   match id with
-  | [a, b, cc, d] => a != 0 && b != 0 && cc != 0 && d != 0 && legalMark c ⟨a, b, cc, d⟩
+  | [a, b, cc, d] => a != 0 && b != 0 && cc != 0 && d != 0 && legalMark c ⟨a, b, cc, d⟩ && !tagLikeOld c ⟨a, b, cc, d⟩
   | _ => false
+
+/-! ### what the repaired `*_set_chunk` functions accept -/
+
+/-- the `reserved []` tables of wav_set_chunk, rf64_set_chunk, aiff_set_chunk, caf_set_chunk -/
+def reserved : Container → List Mark
+  | .wav  => ["RIFF", "RIFX", "fmt ", "fact", "data", "PEAK", "cue ", "smpl", "acid", "bext", "cart"].map mk4
+  | .rf64 => ["ds64", "fmt ", "data", "PEAK", "bext", "cart"].map mk4
+  | .aiff => ["FORM", "COMM", "SSND", "PEAK", "MARK", "INST", "CHAN", "(c) ", "NAME", "AUTH", "ANNO", "COMT", "basc",
+              "NONE"].map mk4
+  | .caf  => ["desc", "data", "pakt", "kuki", "peak", "chan", "info"].map mk4
+
+/-- `psf_chunk_id_is_printable` (asked by WAV, RF64, AIFF only) -/
+def printableMark (m : Mark) : Bool := isPrint m.a && isPrint m.b && isPrint m.c && isPrint m.d
+
+/-- `sf_set_chunk` returns 0: no audio written yet (`have_written`), the padded marker is printable where the
+    container's parser needs that, and it is not in the container's reserved table -/
+def accepts (c : Container) (wrote : Bool) (id : Id) : Bool :=
+  !wrote && (c == .caf || printableMark (markerOf id)) && !(reserved c).contains (markerOf id)
+
+/-- accepted, but the container's reader looks inside the chunk (LIST / INFO lists, APPL application chunks) or the
+    writer emits chunks of that name itself (PAD, free): the read table of this model does not describe them -/
+def passThrough : Container → List Mark
+  | .wav  => ["LIST", "INFO", "PAD "].map mk4
+  | .rf64 => ["LIST", "INFO", "PAD "].map mk4
+  | .aiff => ["APPL"].map mk4
+  | .caf  => ["free"].map mk4
+
+/-- the identifiers for which the model claims the round trip: EVERY id of any length that the repaired
+    `sf_set_chunk` accepts before the audio, other than the pass-through names -/
+def legalId (c : Container) (id : Id) : Bool :=
+  accepts c false id && !(passThrough c).contains (markerOf id)
 
 /-! ## 3. Serialisation -/
 
@@ -165,8 +218,12 @@ deriving DecidableEq, Repr
 
 def zeros (n : Nat) : List Byte := List.replicate n 0
 
-def WChunk.ofInfo (g : Byte × Byte × Byte) (id : Id) (payload : List Byte) : WChunk :=
-  ⟨mark32 g id, pad4 payload.length, payload ++ zeros (pad4 payload.length - payload.length)⟩
+def WChunk.ofInfo (id : Id) (payload : List Byte) : WChunk :=
+  ⟨markerOf id, pad4 payload.length, payload ++ zeros (pad4 payload.length - payload.length)⟩
+
+/-- the stored chunk under the rule before the repair of C13-short-id -/
+def WChunk.ofInfoOld (g : Byte × Byte × Byte) (id : Id) (payload : List Byte) : WChunk :=
+  ⟨mark32Old g id, pad4 payload.length, payload ++ zeros (pad4 payload.length - payload.length)⟩
 
 def le4 (n : Nat) : List Byte := [n % 256, n / 256 % 256, n / 65536 % 256, n / 16777216 % 256]
 def be4 (n : Nat) : List Byte := [n / 16777216 % 256, n / 65536 % 256, n / 256 % 256, n % 256]
@@ -332,11 +389,17 @@ def findFrom (h : Nat) : List RChunk → Nat → Option Nat
 /-- `psf_get_chunk_iterator`.  The handle owns ONE iterator object, allocated on first use and re-used afterwards.
     `stale` is the `hash` field left in that object: 0 at first and after an iteration ran to its end
     (`psf_next_chunk_iterator` clears the object when it returns NULL), but still the old id's hash when an iteration
-    by id was abandoned half-way.  With a NULL id the code sets `current = 0` and does NOT reset `hash`. -/
-def iterStart (tab : List RChunk) (g : Byte × Byte × Byte) (stale : Nat) (id : Option Id) : Option Iter :=
+    by id was abandoned half-way.  With a NULL id the repaired code (ee77a20) sets `current = 0` AND `hash = 0`. -/
+def iterStart (tab : List RChunk) (_stale : Nat) (id : Option Id) : Option Iter :=
+  match id with
+  | none => if tab.length > 0 then some ⟨0, 0⟩ else none
+  | some s => (findFrom (idHash s) tab 0).map fun i => ⟨i, idHash s⟩
+
+/-- THE RULE BEFORE THE REPAIR of C13-stale-iterator: with a NULL id the code set `current = 0` and did NOT reset `hash`. -/
+def iterStartOld (tab : List RChunk) (stale : Nat) (id : Option Id) : Option Iter :=
   match id with
   | none => if tab.length > 0 then some ⟨0, stale⟩ else none
-  | some s => (findFrom (idHash g s) tab 0).map fun i => ⟨i, idHash g s⟩
+  | some s => (findFrom (idHash s) tab 0).map fun i => ⟨i, idHash s⟩
 
 /-- `psf_next_chunk_iterator`; `none` = iterator cleared, NULL returned -/
 def iterNext (tab : List RChunk) (it : Iter) : Option Iter :=
@@ -361,8 +424,12 @@ def getSize (tab : List RChunk) (it : Iter) : Option Nat := (tab[it.current]?).m
 def getData (r : RChunk) (buf : List Byte) : List Byte :=
   r.data.take (min buf.length r.len) ++ buf.drop (min buf.length r.len)
 
-/-- Over virtual I/O `psf_fread` divides by `bytes`: a zero-length read is a division by zero (SIGFPE). -/
-def getDataTraps (vio : Bool) (r : RChunk) (datalen : Nat) : Bool := vio && min datalen r.len == 0
+/-- THE RULE BEFORE THE REPAIR of C13-vio-zero-read (c8a9c60): over virtual I/O `psf_fread` divided by `bytes`:
+    a zero-length read was a division by zero (SIGFPE). -/
+def getDataTrapsOld (vio : Bool) (r : RChunk) (datalen : Nat) : Bool := vio && min datalen r.len == 0
+
+/-- the repaired `psf_fread` returns 0 for a zero byte size on every route -/
+def getDataTraps (_vio : Bool) (_r : RChunk) (_datalen : Nat) : Bool := false
 
 /-! ## 7. A chunk set after audio was written
 
@@ -390,6 +457,29 @@ def headerLen (c : Container) (pre custom : Nat) : Nat :=
     let free : Int := 4096 - (indx : Int) - 28
     indx + 12 + (free % 4096).toNat + 16
 
+/-! ## 7a. sf_set_chunk as a step of the write handle (repaired code)
+
+`sf_set_chunk`: `if (psf->have_written) return SFE_CMD_HAS_DATA`, then the container's `*_set_chunk`: printable
+(WAV, RF64, AIFF), not reserved, `psf_save_write_chunk`.  A refused call changes nothing. -/
+
+structure WHandle where
+  c      : Container
+  wrote  : Bool              -- psf->have_written
+  tab    : WTab
+  chunks : List WChunk       -- the write table's entries, in order
+deriving DecidableEq, Repr
+
+def WHandle.init (c : Container) : WHandle := ⟨c, false, WTab.init, []⟩
+
+/-- returns the handle and whether the call returned 0 -/
+def WHandle.setChunk (h : WHandle) (id : Id) (payload : List Byte) : WHandle × Bool :=
+  if accepts h.c h.wrote id then
+    ({ h with tab := h.tab.save, chunks := h.chunks ++ [WChunk.ofInfo id payload] }, true)
+  else (h, false)
+
+/-- the first audio write -/
+def WHandle.write (h : WHandle) : WHandle := { h with wrote := true }
+
 /-! ## 8. Known-finding classes (decidable predicates; the `…_partial` theorems of SfProps/C13.lean exclude exactly these) -/
 
 namespace KF
@@ -397,19 +487,19 @@ namespace KF
     stack bytes (`snprintf` into an uninitialised union) -/
 def shortId (id : Id) : Bool := (cstr id).length < 4
 /-- class `unprintable-id`: WAV, RF64, AIFF parsers give up on a marker with a byte outside 0x20…0x7e -/
-def unprintableId (c : Container) (id : Id) : Bool := !shortId id && !markAccepted c (mark32 (0, 0, 0) id)
-/-- class `reserved-id`: accepted by sf_set_chunk (the documentation says it fails) and parsed as the container's
+def unprintableId (c : Container) (id : Id) : Bool := !shortId id && !markAccepted c (mark32Old (0, 0, 0) id)
+/-- class `reserved-id`: accepted by the old sf_set_chunk (the documentation says it fails) and parsed as the container's
     own chunk on re-open -/
 def reservedId (c : Container) (id : Id) : Bool :=
-  !shortId id && ((interpreted c).contains (mark32 (0, 0, 0) id) || (trailer c).contains (mark32 (0, 0, 0) id)
-    || tagLike c (mark32 (0, 0, 0) id))
+  !shortId id && ((interpreted c).contains (mark32Old (0, 0, 0) id) || (trailer c).contains (mark32Old (0, 0, 0) id)
+    || tagLikeOld c (mark32Old (0, 0, 0) id))
 /-- class `header-cache`: total serialised header beyond what the cache accepts -/
 def headerCache (c : Container) (pre : Nat) (lens : List Nat) : Bool := !hdrFits c pre lens
 /-- class `late-grow`: a chunk set after audio was written makes the header longer than the one the audio was
     written behind -/
 def lateGrow (c : Container) (pre custom late : Nat) : Bool := headerLen c pre (custom + late) != headerLen c pre custom
 /-- class `vio-zero-read`: sf_get_chunk_data reading zero bytes through SF_VIRTUAL_IO -/
-def vioZeroRead (vio : Bool) (r : RChunk) (datalen : Nat) : Bool := getDataTraps vio r datalen
+def vioZeroRead (vio : Bool) (r : RChunk) (datalen : Nat) : Bool := getDataTrapsOld vio r datalen
 /-- class `stale-iterator`: sf_get_chunk_iterator (NULL) while the handle's iterator still carries the hash of an
     unfinished iteration by id -/
 def staleIterator (stale : Nat) (id : Option Id) : Bool := id.isNone && stale != 0
